@@ -46,6 +46,16 @@ CHECKS = {
             "lines, no tabs/trailing whitespace, single final newline). Sampled, not exhaustive.",
             "only documented freedoms are rendered; frontmatter and zone content are opaque to the recogniser",
             "DESIGN.md §3 C03"),
+    "C05": ("exploration",
+            "model-based: generated zone content and frame vs every pipeline's output, plus an independent text-level fence scanner",
+            "Zone-heavy generated documents (hostile content lines, fence 3-6, tags, every position incl. META and bare block "
+            "children, canonical and lenient spellings) go through parse, emit, octave_validate (fix off/on), octave_write "
+            "(content/changes/normalize), seal+verify and canonical eject (octave, json); each output must hold exactly the "
+            "generated zones (content, tag, fence; text lines between fences) in the generated frame of parents and "
+            "neighbours. Sampled, not exhaustive.",
+            "content lines that look like a closing fence are not generated (not representable); non-zone values are compared "
+            "only by kind here (their fidelity is C02/C04)",
+            "DESIGN.md §3 C05"),
 }
 
 NOT_YET = {
